@@ -389,6 +389,154 @@ def check_rotate_towards(ctx, cfg, F, done):
         done('R-ROTTOW', name, bad, it)
 
 
+def _rename(src_root, dst_root, pairs):
+    """atom mapping from the arguments of one root to those of another: pairs = [(src arg index, dst arg index)], matched by byte offset"""
+    mp = {}
+    for (si, di) in pairs:
+        for a, ia in src_root.atoms.items():
+            if ia.arg != si or ia.kind in ('len', 'discr', 'slice_all'):
+                continue
+            for b, ib in dst_root.atoms.items():
+                if ib.arg == di and ib.off == ia.off and ib.kind == ia.kind:
+                    mp[a] = b
+    return mp
+
+
+def _contains(t, sub, memo):
+    r = memo.get(t.id)
+    if r is not None:
+        return r
+    r = t is sub or any(isinstance(x, tm.T) and _contains(x, sub, memo) for x in t.args)
+    memo[t.id] = r
+    return r
+
+
+def check_quat_rotate_towards(ctx, cfg, F, done):
+    """Quat / DQuat rotate_towards(rhs, m): rhs itself when angle_between(self, rhs) <= a tiny threshold, otherwise self.slerp(rhs, s) with
+    s = clamp(m / angle, -1, 1): at most the remaining angle (never past the target), the target exactly once m >= angle, towards the opposite for
+    negative m.  The clamp is decided by the three orderings of m / angle against -1 and 1."""
+    from C07 import canon_c07
+    Hx = _abstract_harness(F)
+
+    def find(tn, mn):
+        for name, it in api_roots(F):
+            st = (it.get('self_ty') or '').lstrip('&')
+            if not it.get('trait') and st.rsplit('::', 1)[-1] == tn and (it.get('name') or '') == mn:
+                return name, it
+        return None, None
+    for tn in ('Quat', 'DQuat'):
+        name, it = find(tn, 'rotate_towards')
+        sname, sit = find(tn, 'slerp')
+        aname, ait = find(tn, 'angle_between')
+        if it is None:
+            continue
+        if sit is None or ait is None:
+            ctx.unverifiable('R-ROTTOW-Q', cfg, name, 'slerp / angle_between not found')
+            continue
+        rt, rs, ra = Hx.run(it['key']), Hx.run(sit['key']), Hx.run(ait['key'])
+        if rt.abort or rs.abort or ra.abort or rt.ret is None:
+            ctx.undecided('R-ROTTOW-Q', cfg, name, rt.abort or rs.abort or ra.abort or 'diverges')
+            continue
+        body = F.body(it['key'])
+        argtys = body['locals'][1:1 + body['argc']]
+        L = value_lanes(F, rt.ret, body['locals'][0])
+        SL = value_lanes(F, rs.ret, F.body(sit['key'])['locals'][0])
+        views = [ArgView(F, rt, i, argtys[i]) for i in range(3)]
+        bad = None
+        if L is None or SL is None or any(v.lanes is None for v in views) or not isinstance(ra.ret, tm.T):
+            ctx.unverifiable('R-ROTTOW-Q', cfg, name, 'result / operand lanes not found')
+            continue
+        L = [canon_c07(l) for l in L]
+        m_atom = views[2].lanes[0]
+        A = tm.subst(canon_c07(ra.ret), _rename(ra, rt, [(0, 0), (1, 1)]))
+        g = common_guard(L)
+        if g is None:
+            done('R-ROTTOW-Q', name, 'the result is not gated by one within-reach condition', it)
+            continue
+        G, X1, X2 = g
+        near, main = (X1, X2) if all(x is y for x, y in zip(X1, views[1].lanes)) else ((X2, X1) if all(x is y for x, y in zip(X2, views[1].lanes)) else (None, None))
+        if near is None:
+            bad = 'neither branch returns rhs itself'
+        else:
+            near_when = (near is X1)
+            ks = [x for x in G.args if isinstance(x, tm.T) and tm.is_const(x)] if G.op in ('flt', 'fle') else []
+            others = [x for x in G.args if not tm.is_const(x)] if ks else []
+            if len(ks) != 1 or len(others) != 1 or canon_c07(others[0]) is not A:
+                bad = 'the within-reach condition is not a comparison of angle_between(self, rhs) with a constant'
+            else:
+                k = tm.f_of(ks[0])
+                angle_small = (G.args[1] is ks[0])          # reads "angle < / <= k"
+                if (angle_small != near_when) or not (0.0 < k <= 1e-3):
+                    bad = 'rhs is not returned exactly when the remaining angle is below a tiny threshold (threshold %r)' % k
+        if not bad:
+            ren = _rename(rs, rt, [(0, 0), (1, 1)])
+            s_atoms = [a for a, ia in rs.atoms.items() if ia.arg == 2]
+            SLr = [tm.subst(canon_c07(l), ren) for l in SL]
+            cands = []
+            seen = set()
+            memo = {}
+
+            def collect(t):
+                if t.id in seen:
+                    return
+                seen.add(t.id)
+                if _contains(t, m_atom, memo):
+                    cands.append(t)
+                    for x in t.args:
+                        if isinstance(x, tm.T):
+                            collect(x)
+            for l in main:
+                collect(l)
+            cands.sort(key=lambda t: len(tm.show(t, 0, 50)))
+            T = None
+            for c in cands:
+                if all(tm.subst(x, {s_atoms[0]: c}) is y for x, y in zip(SLr, main)):
+                    T = c
+                    break
+            if T is None:
+                bad = 'the out-of-reach branch is not self.slerp(rhs, s) for any sub-expression s of the result'
+            else:
+                X = tm.f2('fdiv', m_atom, A)
+                if not _contains(T, X, {}):
+                    bad = 'the interpolation parameter does not depend on max_angle / angle'
+                else:
+                    sz = tm.csize(ks[0])
+                    one, mone = tm.fconst(1.0, sz), tm.fconst(-1.0, sz)
+                    B = lambda v: tm.TRUE if v else tm.FALSE
+                    for (lo_, hi_, want) in ((True, False, mone), (False, False, X), (False, True, one)):
+                        # lo_: X < -1, hi_: X > 1
+                        mp = {tm.f2('flt', X, mone): B(lo_), tm.f2('fle', X, mone): B(lo_), tm.f2('flt', mone, X): B(not lo_), tm.f2('fle', mone, X): B(not lo_),
+                              tm.f2('flt', one, X): B(hi_), tm.f2('fle', one, X): B(hi_), tm.f2('flt', X, one): B(not hi_), tm.f2('fle', X, one): B(not hi_),
+                              tm.mk('fmax~', *sorted((X, mone))): (mone if lo_ else X), tm.mk('fmin~', *sorted((X, one))): (one if hi_ else X)}
+                        v = T
+                        for _it in range(5):
+                            mp2 = {k_: v_ for k_, v_ in mp.items() if not tm.is_const(k_)}
+                            for a_, b_ in ((X, mone), (X, one)):
+                                for op_ in ('fmin~', 'fmax~'):
+                                    for args_ in ((a_, b_), (b_, a_)):
+                                        key_ = tm.mk(op_, *args_)
+                                        lo_b = (b_ is mone)
+                                        if op_ == 'fmax~':
+                                            mp2[key_] = (mone if lo_ else X) if lo_b else (X if hi_ else one)
+                                        else:
+                                            mp2[key_] = (X if lo_ else mone) if lo_b else (one if hi_ else X)
+                            v2 = canon_c07(tm.subst(v, mp2))
+                            if v2 is v:
+                                break
+                            v = v2
+                        if v.op == 'fmin~' and set(v.args) == {mone, one}:
+                            v = mone
+                        if v.op == 'fmax~' and set(v.args) == {mone, one}:
+                            v = one
+                        if v.op in ('fmin~', 'fmax~') and want in v.args and all(tm.is_const(x) for x in v.args):
+                            fs = [tm.f_of(x) for x in v.args]
+                            v = tm.fconst(min(fs) if v.op == 'fmin~' else max(fs), sz)
+                        if v is not want:
+                            bad = 'the interpolation parameter is not clamp(max_angle / angle, -1, 1): for max_angle / angle %s it is %s' % ('< -1' if lo_ else ('> 1' if hi_ else 'in [-1, 1]'), tm.show(v, 0, 4)[:120])
+                            break
+        done('R-ROTTOW-Q', name, bad, it)
+
+
 def check_floatext(ctx, cfg, F, H, done):
     """FloatExt for f32 / f64: lerp(a, b, t) = a + (b - a) t, inverse_lerp(a, b, v) = (v - a) / (b - a), remap(x, i0, i1, o0, o1) = o0 + (o1 - o0) (x - i0) / (i1 - i0)"""
     n = 0
@@ -853,6 +1001,8 @@ def run(ctx):
                         if not all(S.eq(alg.nf(l), S.mul(u, inv)) for l, u in zip(lanes, un)):
                             bad = 'lerp is not normalize(self + s (+-end - self))'
                 done('R-ARC', name, bad, it)
+        # R-ROTTOW-Q: quaternion rotate_towards is slerp with the clamped ratio
+        check_quat_rotate_towards(ctx, cfg, F, done)
         # R-FLOATEXT: the scalar helpers lerp / inverse_lerp / remap
         check_floatext(ctx, cfg, F, H, done)
         # R-ROTTOW: vector rotate_towards is a rotation of self by the clamped angle
